@@ -91,13 +91,13 @@ def check_config(conv, model, Q, fails, where, ctx):
         matrix("parse_uri", conv.parse_uri, (x,), None, fails, where, False, kw_default={"return_none": False}, counter=None)
         if len(fails) > 6:
             break
-    for p in joint.PREFIX_QUERIES + [""]:
-        for i in joint.IDENTIFIERS:
+    for p in joint.prefix_queries() + [""]:
+        for i in joint.identifiers():
             matrix("expand_pair", conv.expand_pair, (p, i), p + d + i, fails, where, True, counter=counter)
             matrix("expand_reference", conv.expand_reference, (ReferenceTuple(p, i),), p + d + i, fails, where, True, counter=counter)
             matrix("expand_pair_all", conv.expand_pair_all, (p, i), None, fails, where, False, counter=counter)
     if ctx is not None:
-        n = len(Q) * (len(SP_FUNCS) * 4 + len(S_FUNCS) * 2 + 4) + len(joint.PREFIX_QUERIES) * len(joint.IDENTIFIERS) * 10
+        n = len(Q) * (len(SP_FUNCS) * 4 + len(S_FUNCS) * 2 + 4) + len(joint.prefix_queries()) * len(joint.identifiers()) * 10
         ctx.count("evaluations", n)
         for k, v in counter.items():
             ctx.count("default_" + k, v)
